@@ -14,15 +14,17 @@ RULE = ('three kinds of cases. rev: lists of DNA strings (all strings up to a le
         'twice (with an untouched and with a materialised intermediate), also on inputs that are not yet materialised views built by prior indexing (row slice, step, mask, fancy index, column slices, reversed columns); str: a reference string and a set of stranded intervals (every [a,b) of short references, random '
         'sets on longer ones, empty intervals included) through get_strand_specific_sequences (3 encodings), '
         'GenomicSequence.from_dict and Genome.from_file(...).read_sequence(); tr: all 64 codons, all pairs of '
-        'codons, random concatenations in mixed case, empty rows. Every expected value is computed inside Coq from '
+        'codons, random concatenations in mixed case, empty rows, plus rows with N/n or a length that is not a multiple of three (must raise); gen: genes.get_transcript_sequences on single- and multi-exon transcripts. Every expected value is computed inside Coq from '
         'the Spec tables and also compared with Biopython. non-trivial = some row is not its own reverse '
         'complement / some minus-strand interval of length >= 2 / at least one codon')
 EXHAUSTIVE = {'quick': False, 'thorough': False}
 TIE = 'translator+correspondence (Gen/C14.v regenerated from dna.py, translate.py, kmers.py, genes.py, genomic_sequence.py; Bridge/C14.v; complement tables, lookup, row reversal, np.where choice, TCAG 3-mer hash evaluated in Coq on the same inputs; Biopython as second oracle for the Spec tables)'
-ASSUMPTIONS = ['npstructures ragged indexing ([..., ::-1], flat[starts:stops]) is modelled as per-row reversal / slicing and only tied by correspondence',
-               'Biopython 1.88 Seq.reverse_complement / Seq.translate (standard table) used as an independent oracle for the Coq Spec tables']
-PARTIAL = ['C14_revcomp_partial: for the code at HEAD ASCII-encoded input must be upper case (C14_revcomp_pinned_refuted: "a" -> NUL)',
-           'C14_stranded_partial: for the code at HEAD the interval set must extract more bases than it has intervals (C14_stranded_pinned_refuted: one 1-bp interval raises)']
+ASSUMPTIONS = ['npstructures ragged indexing ([..., ::-1], flat[starts:stops], lazy views) is modelled as per-row reversal / slicing and tied by correspondence only (inputs are also handed over as not yet materialised views)',
+               'Biopython 1.88 Seq.reverse_complement / Seq.translate (standard table) used as an independent oracle for the Coq Spec tables (bio_ok)',
+               'genes.get_transcript_sequences is called with in-memory GFFExonEntry rows behind a minimal annotation object (len, get_exons): the GTF-file route raises TypeError at HEAD before reaching the strand code (the repository\'s own test_get_transcript_sequences is not in the passing baseline)',
+               'translation of rows that do not split into ACGTacgt codons (N/n, length not a multiple of 3) is outside the quantifier; expected behaviour fixed as "must raise" and checked (C14_translate_total)']
+PARTIAL = ['C14_stranded_head / C14_transcripts_head: at HEAD strand-aware extraction holds for item sets extracting more bases than they have items; C14_stranded_head_fails / second half of C14_transcripts_head: on every other valid input the call raises (known finding C14-stranded-where-not-broadcast, root cause in npstructures np.where); C14_stranded_fixed / C14_transcripts_fixed: full statement with notes/C14.fix-2.diff',
+           'C14_revcomp_partial / C14_stranded_partial / *_pinned_refuted are history of the lower-case ASCII defect (fixed in /repo c37d549); C14_revcomp_head is the full statement for HEAD']
 PER_FILE = 40
 ALPH = {0: 'ACGTNacgtn', 1: 'ACGTacgt', 2: 'ACGTNacgtn'}
 ERR = {'EncodingError': 1, 'AssertionError': 2, 'IndexError': 3, 'KeyError': 4, 'AttributeError': 5, 'ValueError': 5}
@@ -174,6 +176,41 @@ def generate(tier, seed):
         for rows in _pack(triples, 64):
             cases.append(dict(op='tr', rows=rows))
 
+    # ---- tr on input the property does not quantify over: N / n, length not a multiple of three -> must raise
+    for rows in (['ACN'], ['ACGTTT', 'NNN'], ['acn', ''], ['AC'], ['ACGT', ''], ['ACGTT', 'A'], ['ACGTT', 'ACGG', 'AAA'],
+                 ['A', 'CG'], ['ACN', 'A'], ['ACGTTTA'], ['', 'n'], ['TTTT', 'TT', 'TTT']):
+        cases.append(dict(op='tr', rows=rows))
+    for i in range(12 if quick else 120):
+        rows = [''.join(rng.choice(CODONS) for _ in range(rng.randint(0, 4))) for _ in range(rng.randint(1, 5))]
+        k = rng.randrange(len(rows))
+        if i % 2:
+            pos = rng.randint(0, len(rows[k]))
+            rows[k] = rows[k][:pos] + rng.choice('Nn') + rows[k][pos:] + ('AC' if i % 4 == 1 else '')   # N (length kept a multiple of 3 half the time)
+        else:
+            rows[k] = rows[k] + rng.choice(['A', 'ac'])
+            if i % 4 == 0 and len(rows) > 1:                 # total length still a multiple of three
+                k2 = (k + 1) % len(rows)
+                rows[k2] = rows[k2] + ('AC' if len(rows[k]) % 3 == 1 else 'g')
+        cases.append(dict(op='tr', rows=rows))
+
+    # ---- gen: genes.get_transcript_sequences on in-memory exon entries (single- and multi-exon transcripts)
+    for i in range(40 if quick else 400):
+        L = rng.choice([6, 12, 30]) if rng.random() < 0.5 else rng.randint(3, 25)
+        ref = rstr(L, ALPH[2] if i % 3 else ALPH[2].upper())
+        txs = []
+        for _ in range(rng.randint(1, 5)):
+            exons, pos = [], 0
+            for _ in range(rng.choice([1, 1, 2, 3])):
+                a = rng.randint(pos, L)
+                b = rng.randint(a, L) if rng.random() < 0.85 else a
+                exons.append([a, b])
+                pos = b
+            txs.append([exons, '-' if rng.random() < 0.5 else '+'])
+        cases.append(dict(op='gen', ref=ref, txs=txs))
+    for txs in ([[[[2, 3]], '-']], [[[[0, 0]], '+']], [[[[0, 1]], '+'], [[[3, 4]], '-']], [[[[0, 2], [4, 6]], '-']],
+                [[[[1, 3]], '-'], [[[3, 3]], '+']], [[[[0, 3], [3, 6]], '-'], [[[6, 7]], '+']]):
+        cases.append(dict(op='gen', ref='ACGTNAc', txs=txs))
+
     # ---- str: reference + stranded intervals, five routes
     routes = [(0, 0), (0, 1), (0, 2), (1, 2), (2, 2)]
     for route, enc in routes:
@@ -308,7 +345,8 @@ def observe(case):
     if op == 'tr':
         from Bio.Seq import Seq
         rows, view = _eff(case), case.get('view')
-        out = dict(bio=[str(Seq(s).translate()).encode().hex() for s in rows], outs=[])
+        wellformed = all(len(s) % 3 == 0 and set(s) <= set('ACGTacgt') for s in rows)
+        out = dict(bio=[str(Seq(s).translate()).encode().hex() for s in rows] if wellformed else [], outs=[])
         try:
             x = _index_view(as_encoded_array(case['rows']), view) if view else as_encoded_array(rows)
             r = translate_dna_to_protein(x)
@@ -327,6 +365,33 @@ def observe(case):
             out['outs'].append([0 if ok else 9, _rows(r.sequence)])
         except Exception as e:
             out['outs'].append(_err(e))
+        return out
+    if op == 'gen':
+        from bionumpy.datatypes.gtf import GFFExonEntry
+        from bionumpy.sequence.genes import get_transcript_sequences
+        ref, txs = case['ref'], case['txs']
+        out = dict(bio=[])
+        for ex, st in txs:
+            sp = ''.join(ref[a:b] for a, b in ex)
+            out['bio'].append((_bio_rc(sp) if st == '-' else sp).encode().hex())
+
+        class Entries:                     # in-memory annotation: only what get_transcript_sequences uses
+            def __init__(self, exons):
+                self._exons = exons
+
+            def __len__(self):
+                return len(self._exons)
+
+            def get_exons(self):
+                return self._exons
+        rows = [('c', 'src', 'exon', a, b, '.', st, '.', 'x', 'g%d' % t, 't%d' % t, 'e%d_%d' % (t, k))
+                for t, (ex, st) in enumerate(txs) for k, (a, b) in enumerate(ex)]
+        try:
+            r = get_transcript_sequences(Entries(GFFExonEntry.from_entry_tuples(rows)), ref)
+            ok = [n.to_string() for n in r.name] == ['t%d' % t for t in range(len(txs))]
+            out['o'] = [0 if ok else 9, _rows(r.sequence)]
+        except Exception as e:
+            out['o'] = _err(e)
         return out
     # ---- stranded extraction
     ref, ivs, route = case['ref'], case['ivs'], case['route']
@@ -389,6 +454,10 @@ def to_coq(case, o):
                                         clist([_obs(x) for x in o['twice']], 'obs'), _hrows(o['bio']))
     if op == 'tr':
         return 'CTr %s %s %s' % (_srows(_eff(case)), clist([_obs(x) for x in o['outs']], 'obs'), _hrows(o['bio']))
+    if op == 'gen':
+        txs = clist(['(%s, %s)' % (clist(['(%s, %s)' % (cz(a), cz(b)) for a, b in ex], '(Z*Z)'), cz(ord(st))) for ex, st in case['txs']],
+                    'transcript')
+        return 'CGen %s %s %s %s' % (hx(case['ref'].encode()), txs, _obs(o['o']), _hrows(o['bio']))
     ivs = clist(['(%s, %s, %s)' % (cz(a), cz(b), cz(ord(st))) for a, b, st in case['ivs']], '(Z*Z*Z)')
     return 'CStr %s %s %s %s %s %s' % (cz(case['route']), cz(case['enc']), hx(case['ref'].encode()), ivs, _obs(o['o']), _hrows(o['bio']))
 
@@ -404,6 +473,8 @@ def nontrivial(case, o):
         return any(len(s) >= 2 and _rc(s) != s and s[::-1] != s for s in _eff(case))
     if op == 'tr':
         return any(len(s) >= 3 for s in _eff(case))
+    if op == 'gen':
+        return any(st == '-' and sum(b - a for a, b in ex) >= 2 for ex, st in case['txs'])
     return any(st == '-' and b - a >= 2 for a, b, st in case['ivs'])
 
 
@@ -438,6 +509,12 @@ def distribution(cases, obs):
             d['tr'] += 1
             d['codons'] += sum(len(s) // 3 for s in c['rows'])
             code = o['outs'][0][0] if isinstance(o, dict) and o.get('outs') else -1
+            if not all(len(s) % 3 == 0 and set(s) <= set('ACGTacgt') for s in c['rows']):
+                d['tr_must_raise'] = d.get('tr_must_raise', 0) + 1
+        elif c['op'] == 'gen':
+            d['gen_transcripts'] = d.get('gen_transcripts', 0) + len(c['txs'])
+            d['gen_multi_exon'] = d.get('gen_multi_exon', 0) + sum(1 for ex, st in c['txs'] if len(ex) > 1)
+            code = o['o'][0] if isinstance(o, dict) and o.get('o') else -1
         else:
             k = 'route%d_enc%d' % (c['route'], c['enc'])
             d['str'][k] = d['str'].get(k, 0) + 1
@@ -450,40 +527,19 @@ def distribution(cases, obs):
     return d
 
 
-def _nul_for_lower(src_rows, got_rows, want_rows):
-    """True iff got differs from want, and only by NUL bytes at positions whose expected symbol is lower case."""
-    if len(got_rows) != len(want_rows):
-        return False
-    diff = False
-    for g, w in zip(got_rows, want_rows):
-        if len(g) != len(w):
-            return False
-        for x, y in zip(g, w):
-            if x != y:
-                if not (x == '\x00' and y.islower()):
-                    return False
-                diff = True
-    return diff
-
-
 def finding(case, o):
+    """Only the one listed failure mode: np.where raises (code 5) AND the item set has at least as many items as extracted
+    bases.  The model returns Err 5 on exactly that class (C14_stranded_head_fails / C14_transcripts_head), so a case where
+    the implementation disagrees with the model is never matched here."""
     op = case['op']
-    if op == 'rev' and case['enc'] == 0 and o['once'] and o['once'][0][0] == 0:
-        got = [bytes.fromhex(h).decode('latin1') for h in o['once'][0][1]]
-        if _nul_for_lower(None, got, [_rc(s) for s in _eff(case)]):
-            return 'C14-ascii-lowercase-complement'
     if op == 'str':
         ivs = case['ivs']
-        if o['o'][0] == 5 and len(ivs) >= sum(b - a for a, b, st in ivs):
+        if o['o'][0] == 5 and not o['o'][1] and len(ivs) >= sum(b - a for a, b, st in ivs):
             return 'C14-stranded-where-not-broadcast'
-        if case['route'] == 0 and case['enc'] == 0 and o['o'][0] == 0:
-            got = [bytes.fromhex(h).decode('latin1') for h in o['o'][1]]
-            want = [(_rc(case['ref'][a:b]) if st == '-' else case['ref'][a:b]) for a, b, st in ivs]
-            known = [st in '+-' for a, b, st in ivs]
-            got = [g for g, k in zip(got, known) if k]
-            want = [w for w, k in zip(want, known) if k]
-            if _nul_for_lower(None, got, want):
-                return 'C14-ascii-lowercase-complement'
+    if op == 'gen':
+        txs = case['txs']
+        if o['o'][0] == 5 and not o['o'][1] and len(txs) >= sum(b - a for ex, st in txs for a, b in ex):
+            return 'C14-stranded-where-not-broadcast'
     return None
 
 
@@ -493,4 +549,6 @@ def signature(case, o):
         return 'rev enc%d code%s' % (case['enc'], o['once'][0][0] if o.get('once') else '?')
     if op == 'tr':
         return 'tr code%s' % (o['outs'][0][0] if o.get('outs') else '?')
+    if op == 'gen':
+        return 'gen code%s' % o['o'][0]
     return 'str route%d enc%d code%s' % (case['route'], case['enc'], o['o'][0])
